@@ -2127,7 +2127,7 @@ void SVDlapack(matrix *m_, matrix *u, matrix *s, matrix *vt)
   int n = m_->col;
   int lda = m_->row;
   int ldu = m_->row;
-  int ldvt = m_->col;
+  int ldvt = (m_->row < m_->col) ? m_->row : m_->col;
   int info;
   int lwork;
   double wkopt;
@@ -2162,15 +2162,16 @@ void SVDlapack(matrix *m_, matrix *u, matrix *s, matrix *vt)
   }
 
   /* s are the eigenvectors singular values diagonal matrix*/
-  ResizeMatrix(s, n, n);
-  for(i = 0; i < m_->col; i++){
+  k = (m < n) ? m : n; /* number of singular triplets returned by jobz = 'S' */
+  ResizeMatrix(s, k, k);
+  for(i = 0; i < k; i++){
     s->data[i][i] = s_[i];
   }
   //conv2matrix(1, n, s_, 1, s);
-  /* u is left singular vectors */
-  conv2matrix(m, n, u_, ldu, u);
-  /*vt is the right singular vectors */
-  conv2matrix(m, n, vt_, ldvt, vt);
+  /* u is left singular vectors: m x k */
+  conv2matrix(m, k, u_, ldu, u);
+  /*vt is the right singular vectors: k x n */
+  conv2matrix(k, n, vt_, ldvt, vt);
   /* Free workspace */
   xfree(work);
   xfree(a);
